@@ -28,7 +28,9 @@ type translator struct {
 	m                                *machine
 	sourceName, subCtxName, destName string
 	locals                           map[string]localInfo
-	cbCtx                            expr // the current callback's own context parameter
+	cbCtx                            expr              // the current callback's own context parameter
+	upCtxExpr                        ast.Expr          // upstream subscription context when it is not `subscriberCtx`
+	allowedAddr                      map[ast.Node]bool // `&x` as the first argument of a sync/atomic call
 	stateName                        string
 }
 
@@ -109,6 +111,7 @@ func (tr *translator) translateSubscribe(fn *ast.FuncLit) {
 	var teardown *ast.FuncLit
 	tr.checkTeardown(body[i+1], subVar, &teardown)
 	tr.pairTupleWithFlag()
+	tr.allowedAddr = map[ast.Node]bool{}
 	tr.checkCounterWrites(fn)
 
 	switch len(m.comps) {
@@ -127,6 +130,19 @@ func (tr *translator) translateSubscribe(fn *ast.FuncLit) {
 	}
 	if teardown != nil {
 		tr.checkTeardownBody(teardown, subVar)
+	}
+
+	if tr.upCtxExpr != nil {
+		st := tr.initial()
+		st.scopes = append(st.scopes, map[string]val{tr.subCtxName: {atom("subscriberCtx"), tCtx}})
+		saved := tr.locals
+		tr.locals = map[string]localInfo{} // the expression may not read the state
+		v := tr.eval(tr.upCtxExpr, st)
+		tr.locals = saved
+		if v.t.k != "Ctx" {
+			skip("upstream is subscribed with a non-context: %s", src(tr.upCtxExpr))
+		}
+		m.upCtx = pp(v.e, 0)
 	}
 
 	// subscribe-time statements (`StartWith`): run with ctx := subscriberCtx
@@ -198,7 +214,7 @@ func (tr *translator) isSubscribe(s ast.Stmt) (string, ast.Expr, bool) {
 		skip("SubscribeWithContext with %d arguments", len(c.Args))
 	}
 	if id, ok := c.Args[0].(*ast.Ident); !ok || id.Name != tr.subCtxName {
-		skip("upstream is subscribed with %s, not with `%s`", src(c.Args[0]), tr.subCtxName)
+		tr.upCtxExpr = c.Args[0]
 	}
 	return as.Lhs[0].(*ast.Ident).Name, c.Args[1], true
 }
@@ -312,7 +328,7 @@ func (tr *translator) declareLocal(s ast.Stmt) bool {
 			case t.k == "List" || t.k == "Set":
 				add(name, t, atom("[]"))
 			default:
-				skip("`%s`: zero value of type %s is not in the fragment", src(s), src(vs.Type))
+				add(name, t, tr.zero(t, s))
 			}
 		}
 		return true
@@ -338,10 +354,26 @@ func (tr *translator) declareLocal(s ast.Stmt) bool {
 			}
 		case *ast.CallExpr:
 			if id, ok := r.Fun.(*ast.Ident); ok && len(r.Args) >= 1 {
-				if (id.Name == "int64" || id.Name == "int") && len(r.Args) == 1 {
+				if (id.Name == "int64" || id.Name == "int" || id.Name == "uint64" || id.Name == "uint32" || id.Name == "int32") && len(r.Args) == 1 {
 					if l, ok := r.Args[0].(*ast.BasicLit); ok && l.Value == "0" {
 						add(name, tNat, atom("0"))
 						return true
+					}
+				}
+				if id.Name == "float64" && len(r.Args) == 1 {
+					if l, ok := r.Args[0].(*ast.BasicLit); ok && l.Kind == token.INT {
+						add(name, tVar("φ"), eApp{tr.extern("float64_ofInt", []*ltype{tInt}, tVar("φ")), []expr{atom(l.Value)}})
+						return true
+					}
+				}
+				if id.Name == "make" && len(r.Args) == 2 {
+					// make([]X, n): n zero values
+					t := tr.oc.valueType(r.Args[0])
+					if nid, ok := r.Args[1].(*ast.Ident); ok && t.k == "List" {
+						if p := tr.param(nid.Name); p != nil && p.fn == nil && p.t.k == "Nat" {
+							add(name, t, eApp{atom("List.replicate"), []expr{atom(leanName(p.name)), tr.zero(t.a, s)}})
+							return true
+						}
 					}
 				}
 				if id.Name == "make" && len(r.Args) >= 2 {
@@ -357,7 +389,10 @@ func (tr *translator) declareLocal(s ast.Stmt) bool {
 		case *ast.CompositeLit:
 			if len(r.Elts) == 0 && r.Type != nil {
 				t := tr.oc.valueType(r.Type)
-				if t.k == "List" || t.k == "Set" {
+				if t.k == "List" || t.k == "Set" || t.k == "Map" {
+					if t.k == "Map" {
+						tr.oc.decEqOf[t.a.name] = true
+					}
 					add(name, t, atom("[]"))
 					return true
 				}
@@ -394,7 +429,9 @@ func (tr *translator) pairTupleWithFlag() {
 		return
 	}
 	if nb != 1 {
-		skip("zero-valued tuple local `%s` without exactly one bool flag to guard it", m.comps[tup].name)
+		// no single flag to pair it with: the tuple starts as its Go zero value
+		m.comps[tup].init = tr.zero(m.comps[tup].t, nil)
+		return
 	}
 	tc, fc := m.comps[tup], m.comps[flag]
 	tc.opt, tc.flagName, tc.flagInit = true, fc.name, isLit(fc.init, "true")
@@ -424,20 +461,98 @@ func (tr *translator) checkCounterWrites(fn *ast.FuncLit) {
 				}
 			}
 		case *ast.AssignStmt:
-			for _, l := range x.Lhs {
-				if id, ok := l.(*ast.Ident); ok && x.Tok != token.DEFINE {
-					if li, ok := tr.locals[id.Name]; ok && li.role == rolePlain && tr.m.comps[li.comp].t.k == "Nat" {
-						skip("integer local %s is written other than by `++`: %s", id.Name, src(x))
+			// integer locals are `Nat`: an assigned value must itself be a `Nat` expression (checked in
+			// `assign`); subtraction is not in the fragment
+			if x.Tok == token.SUB_ASSIGN {
+				skip("`-=` outside the fragment: %s", src(x))
+			}
+		case *ast.CallExpr:
+			// sync/atomic on a local: `atomic.AddUint64(&x, n)`, `atomic.LoadUint64(&x)`, `atomic.StoreUint64(&x, v)`
+			if isAtomicCall(x) != "" && len(x.Args) >= 1 {
+				if u, ok := x.Args[0].(*ast.UnaryExpr); ok && u.Op == token.AND {
+					if _, ok := u.X.(*ast.Ident); ok {
+						tr.allowedAddr[u] = true
 					}
 				}
 			}
 		case *ast.UnaryExpr:
-			if x.Op == token.AND {
+			if x.Op == token.AND && !tr.allowedAddr[x] {
 				skip("address taken: %s", src(x))
 			}
 		}
 		return true
 	})
+}
+
+// "Add" | "Load" | "Store" for atomic.{Add,Load,Store}{Int32,Int64,Uint32,Uint64}
+func isAtomicCall(c *ast.CallExpr) string {
+	sel, ok := c.Fun.(*ast.SelectorExpr)
+	if !ok {
+		return ""
+	}
+	id, ok := sel.X.(*ast.Ident)
+	if !ok || id.Name != "atomic" {
+		return ""
+	}
+	for _, op := range []string{"Add", "Load", "Store"} {
+		for _, ty := range []string{"Int32", "Int64", "Uint32", "Uint64"} {
+			if sel.Sel.Name == op+ty {
+				return op
+			}
+		}
+	}
+	return ""
+}
+
+// zero: the Go zero value of a type. For a type parameter it is `default` under `[Inhabited α]`:
+// the model is parametric in which element that is.
+func (tr *translator) zero(t *ltype, where ast.Node) expr {
+	switch t.k {
+	case "Ctx":
+		return atom("Ctx.nil")
+	case "Int", "Nat":
+		return atom("0")
+	case "Bool":
+		return atom("false")
+	case "List", "Set":
+		return atom("[]")
+	case "var":
+		if t.name == "α" || t.name == "β" || t.name == "κ" {
+			if tr.m.inhabited == nil {
+				tr.m.inhabited = map[string]bool{}
+			}
+			tr.m.inhabited[t.name] = true
+			return atom("default")
+		}
+	case "Prod":
+		return eTuple{[]expr{tr.zero(t.a, where), tr.zero(t.b, where)}}
+	}
+	if where != nil {
+		skip("zero value of type %s is not in the fragment: %s", t.lean(false), src(where))
+	}
+	skip("zero value of type %s is not in the fragment", t.lean(false))
+	return nil
+}
+
+// extern: an uninterpreted library function / constant (math.Round, context.WithTimeout, float
+// arithmetic, …) becomes an extra parameter of the Lean definition
+func (tr *translator) extern(name string, params []*ltype, result *ltype) expr {
+	for _, p := range tr.m.externs {
+		if p.name == name {
+			return atom(name)
+		}
+	}
+	for _, p := range tr.m.params {
+		if leanName(p.name) == name {
+			skip("name clash between parameter %s and the uninterpreted function %s", p.name, name)
+		}
+	}
+	if len(params) == 0 {
+		tr.m.externs = append(tr.m.externs, &opParam{name: name, t: result})
+	} else {
+		tr.m.externs = append(tr.m.externs, &opParam{name: name, fn: &userFn{params: params, results: []*ltype{result}}})
+	}
+	return atom(name)
 }
 
 func (tr *translator) initial() *sstate {
@@ -619,6 +734,8 @@ func immediateExprs(s ast.Stmt) []ast.Node {
 		return []ast.Node{x.X}
 	case *ast.RangeStmt:
 		return []ast.Node{x.X, x.Body}
+	case *ast.ForStmt:
+		return []ast.Node{x}
 	}
 	return nil
 }
@@ -689,6 +806,8 @@ func (tr *translator) stmt(s ast.Stmt, st *sstate, k func(*sstate) tree) tree {
 		return k(tr.exprStmt(x, st))
 	case *ast.RangeStmt:
 		return k(tr.rangeStmt(x, st))
+	case *ast.ForStmt:
+		return k(tr.forStmt(x, st))
 	case *ast.IfStmt:
 		return tr.ifStmt(x, st, k)
 	case *ast.SwitchStmt:
@@ -703,6 +822,12 @@ func (tr *translator) stmt(s ast.Stmt, st *sstate, k func(*sstate) tree) tree {
 
 func (tr *translator) ifStmt(x *ast.IfStmt, st *sstate, k func(*sstate) tree) tree {
 	s1 := st.push()
+	// `if v, ok := any(e).(U); ok { … } else { … }`: an uninterpreted partial conversion
+	if as, ok := x.Init.(*ast.AssignStmt); ok && len(as.Rhs) == 1 {
+		if ta, ok := as.Rhs[0].(*ast.TypeAssertExpr); ok {
+			return tr.typeAssertIf(x, as, ta, s1, k)
+		}
+	}
 	if x.Init != nil {
 		as, ok := x.Init.(*ast.AssignStmt)
 		if !ok {
@@ -750,6 +875,39 @@ func (tr *translator) ifStmt(x *ast.IfStmt, st *sstate, k func(*sstate) tree) tr
 		skip("condition is not boolean: %s", src(x.Cond))
 	}
 	return mkIte(c.e, func() tree { return thenK(s1) }, func() tree { return elseK(s1) })
+}
+
+func (tr *translator) typeAssertIf(x *ast.IfStmt, as *ast.AssignStmt, ta *ast.TypeAssertExpr, s1 *sstate, k func(*sstate) tree) tree {
+	bad := func() { skip("type assertion outside the fragment: %s", src(as)) }
+	if as.Tok != token.DEFINE || len(as.Lhs) != 2 || ta.Type == nil {
+		bad()
+	}
+	vn, okn := as.Lhs[0].(*ast.Ident), as.Lhs[1].(*ast.Ident)
+	cond, isId := x.Cond.(*ast.Ident)
+	conv, isCall := ta.X.(*ast.CallExpr)
+	if !isId || cond.Name != okn.Name || okn.Name == "_" || !isCall || src(conv.Fun) != "any" || len(conv.Args) != 1 {
+		bad()
+	}
+	from := tr.eval(conv.Args[0], s1)
+	to := tr.oc.valueType(ta.Type)
+	if from.t.k != "var" || to.k != "var" {
+		bad()
+	}
+	scrut := eApp{tr.extern("typeAssert", []*ltype{from.t}, tOption(to)), []expr{from.e}}
+	some := s1.clone()
+	bn := leanName(vn.Name)
+	some.scopes[len(some.scopes)-1][vn.Name] = val{atom(bn), to}
+	thenT := tr.block(x.Body.List, some.push(), func(s2 *sstate) tree { return k(s2.pop().pop()) })
+	var elseT tree
+	switch e := x.Else.(type) {
+	case nil:
+		elseT = k(s1.pop())
+	case *ast.BlockStmt:
+		elseT = tr.block(e.List, s1.push(), func(s2 *sstate) tree { return k(s2.pop().pop()) })
+	default:
+		bad()
+	}
+	return tMatch{scrut: scrut, pat: bn, some: thenT, none: elseT}
 }
 
 // mkIte prunes constant conditions and turns `if ¬c then a else b` into `if c then b else a`
@@ -885,10 +1043,14 @@ func (tr *translator) assignStmt(x *ast.AssignStmt, st *sstate) *sstate {
 	case x.Tok == token.ADD_ASSIGN && len(x.Lhs) == 1 && len(x.Rhs) == 1:
 		name := lhsName(x.Lhs[0])
 		l, r := tr.eval(x.Lhs[0], st), tr.eval(x.Rhs[0], st)
-		if l.t.k != "Int" || !sameType(l.t, r.t) {
-			skip("`+=` outside the fragment (integers only): %s", src(x))
+		switch {
+		case l.t.k == "Int" && sameType(l.t, r.t):
+			tr.assign(n, name, val{eBin{"+", l.e, r.e}, tInt}, false)
+		case isFloat(l.t) && isFloat(r.t):
+			tr.assign(n, name, val{eApp{tr.extern("float64_add", []*ltype{l.t, l.t}, l.t), []expr{l.e, r.e}}, l.t}, false)
+		default:
+			skip("`+=` outside the fragment (integers and floats only): %s", src(x))
 		}
-		tr.assign(n, name, val{eBin{"+", l.e, r.e}, tInt}, false)
 	case x.Tok != token.ASSIGN && x.Tok != token.DEFINE:
 		skip("assignment operator outside the fragment: %s", src(x))
 	case len(x.Lhs) == 1 && len(x.Rhs) == 1:
@@ -896,11 +1058,31 @@ func (tr *translator) assignStmt(x *ast.AssignStmt, st *sstate) *sstate {
 		if ix, ok := x.Lhs[0].(*ast.IndexExpr); ok {
 			set, key := tr.eval(ix.X, st), tr.eval(ix.Index, st)
 			id, isId := ix.X.(*ast.Ident)
-			cl, isCl := x.Rhs[0].(*ast.CompositeLit)
-			if set.t.k != "Set" || !isId || !isCl || len(cl.Elts) != 0 || !sameType(set.t.a, key.t) {
+			if !isId {
 				skip("indexed assignment outside the fragment: %s", src(x))
 			}
-			tr.assign(n, id.Name, val{eBin{"::", key.e, set.e}, set.t}, false)
+			switch set.t.k {
+			case "Set":
+				cl, isCl := x.Rhs[0].(*ast.CompositeLit)
+				if !isCl || len(cl.Elts) != 0 || !sameType(set.t.a, key.t) {
+					skip("indexed assignment outside the fragment: %s", src(x))
+				}
+				tr.assign(n, id.Name, val{eBin{"::", key.e, set.e}, set.t}, false)
+			case "List": // xs[i] = e (in range: Go panics otherwise; `List.set` is total)
+				v := tr.eval(x.Rhs[0], st)
+				if key.t.k != "Nat" || !sameType(set.t.a, v.t) {
+					skip("indexed assignment outside the fragment: %s", src(x))
+				}
+				tr.assign(n, id.Name, val{eApp{eField{set.e, "set"}, []expr{key.e, v.e}}, set.t}, false)
+			case "Map": // m[k] = v: the model's association list
+				v := tr.eval(x.Rhs[0], st)
+				if !sameType(set.t.a, key.t) || !sameType(set.t.b, v.t) {
+					skip("indexed assignment outside the fragment: %s", src(x))
+				}
+				tr.assign(n, id.Name, val{eApp{atom("assocSet"), []expr{set.e, key.e, v.e}}, set.t}, false)
+			default:
+				skip("indexed assignment outside the fragment: %s", src(x))
+			}
 			return n
 		}
 		tr.assign(n, lhsName(x.Lhs[0]), tr.eval(x.Rhs[0], st), define)
@@ -913,6 +1095,21 @@ func (tr *translator) assignStmt(x *ast.AssignStmt, st *sstate) *sstate {
 			}
 			tr.assign(n, lhsName(x.Lhs[1]), val{eBin{"∈", key.e, set.e}, tProp}, define)
 			return n
+		}
+		// `child, _ := context.WithTimeout(ctx, d)`: the cancel function must be discarded
+		if c, ok := x.Rhs[0].(*ast.CallExpr); ok && len(x.Lhs) == 2 {
+			if fn := src(c.Fun); fn == "context.WithTimeout" || fn == "context.WithDeadline" {
+				if lhsName(x.Lhs[1]) != "_" || len(c.Args) != 2 {
+					skip("the cancel function of %s is kept: %s", fn, src(x))
+				}
+				cv, dv := tr.eval(c.Args[0], st), tr.eval(c.Args[1], st)
+				if cv.t.k != "Ctx" || dv.t.k != "var" {
+					skip("call outside the fragment: %s", src(c))
+				}
+				name := "context_" + fn[len("context."):]
+				tr.assign(n, lhsName(x.Lhs[0]), val{eApp{tr.extern(name, []*ltype{tCtx, dv.t}, tCtx), []expr{cv.e, dv.e}}, tCtx}, define)
+				return n
+			}
 		}
 		// multi-valued call of a user callback
 		v, results := tr.callUser(x.Rhs[0], st)
@@ -1017,6 +1214,31 @@ func (tr *translator) exprStmt(x *ast.ExprStmt, st *sstate) *sstate {
 	if st2, ok := tr.emit(c, st); ok {
 		return st2
 	}
+	if op := isAtomicCall(c); op == "Add" || op == "Store" {
+		// the callbacks of one subscription are not concurrent with each other: sequential meaning
+		u, ok := c.Args[0].(*ast.UnaryExpr)
+		if !ok || len(c.Args) != 2 {
+			skip("call outside the fragment: %s", src(c))
+		}
+		id := u.X.(*ast.Ident)
+		cur, v := tr.eval(id, st), tr.eval(c.Args[1], st)
+		if cur.t.k != "Nat" || !sameType(cur.t, v.t) {
+			skip("atomic operation on something that is not a counter: %s", src(c))
+		}
+		n := st.clone()
+		if op == "Add" {
+			tr.assign(n, id.Name, val{eBin{"+", cur.e, v.e}, tNat}, false)
+		} else {
+			tr.assign(n, id.Name, val{v.e, tNat}, false)
+		}
+		return n
+	}
+	if src(c.Fun) == "time.Sleep" && len(c.Args) == 1 {
+		// a `Machine` has no time: the delay is not modelled
+		tr.eval(c.Args[0], st)
+		tr.addNote("`time.Sleep` is not modelled")
+		return st
+	}
 	// a user callback without results, called for its side effects: nothing in the model
 	_, results := tr.callUser(c, st)
 	if len(results) != 0 {
@@ -1024,6 +1246,17 @@ func (tr *translator) exprStmt(x *ast.ExprStmt, st *sstate) *sstate {
 	}
 	return st
 }
+
+func (tr *translator) addNote(n string) {
+	for _, x := range tr.m.notes {
+		if x == n {
+			return
+		}
+	}
+	tr.m.notes = append(tr.m.notes, n)
+}
+
+func isFloat(t *ltype) bool { return t.k == "var" && t.name == "φ" }
 
 func (tr *translator) emit(c *ast.CallExpr, st *sstate) (*sstate, bool) {
 	kind, ok := tr.destCall(c)
@@ -1122,6 +1355,82 @@ func (tr *translator) rangeStmt(x *ast.RangeStmt, st *sstate) *sstate {
 	return n
 }
 
+// `for i := 0; i < A [&& i < B]; i++ { destination.NextWithContext(c(i), e(i)) }`
+//
+//	↦ (List.range (min A B)).map (fun i => Notif.next c(i) e(i))
+func (tr *translator) forStmt(x *ast.ForStmt, st *sstate) *sstate {
+	bad := func() { skip("loop outside the fragment: %s", src(x)) }
+	init, ok := x.Init.(*ast.AssignStmt)
+	if !ok || init.Tok != token.DEFINE || len(init.Lhs) != 1 || len(init.Rhs) != 1 || src(init.Rhs[0]) != "0" {
+		bad()
+	}
+	iv := init.Lhs[0].(*ast.Ident).Name
+	post, ok := x.Post.(*ast.IncDecStmt)
+	if !ok || post.Tok != token.INC || src(post.X) != iv || x.Cond == nil || len(x.Body.List) != 1 {
+		bad()
+	}
+	// bounds: conjunction of `i < e`
+	var bounds []ast.Expr
+	var conj func(e ast.Expr)
+	conj = func(e ast.Expr) {
+		be, ok := e.(*ast.BinaryExpr)
+		if !ok {
+			bad()
+		}
+		if be.Op == token.LAND {
+			conj(be.X)
+			conj(be.Y)
+			return
+		}
+		if be.Op != token.LSS || src(be.X) != iv {
+			bad()
+		}
+		bounds = append(bounds, be.Y)
+	}
+	conj(x.Cond)
+	var n expr
+	for _, b := range bounds {
+		found := false
+		ast.Inspect(b, func(nd ast.Node) bool {
+			if id, ok := nd.(*ast.Ident); ok && id.Name == iv {
+				found = true
+			}
+			return true
+		})
+		v := tr.eval(b, st)
+		if found || v.t.k != "Nat" {
+			bad()
+		}
+		if n == nil {
+			n = v.e
+		} else {
+			n = eApp{atom("min"), []expr{n, v.e}}
+		}
+	}
+	es, ok := x.Body.List[0].(*ast.ExprStmt)
+	if !ok {
+		bad()
+	}
+	c, ok := es.X.(*ast.CallExpr)
+	if !ok {
+		bad()
+	}
+	kind, ok := tr.destCall(c)
+	if !ok || kind != "next" || len(c.Args) != 2 {
+		bad()
+	}
+	body := st.push()
+	body.scopes[len(body.scopes)-1][iv] = val{atom(leanName(iv)), tNat}
+	cv := tr.eval(c.Args[0], body)
+	if cv.t.k != "Ctx" {
+		bad()
+	}
+	av := tr.asDest(tr.eval(c.Args[1], body), c)
+	out := st.clone()
+	out.emits = append(out.emits, seg{kind: "range", ctx: cv.e, arg: av, n: n, v: leanName(iv)})
+	return out
+}
+
 // ---------------------------------------------------------------- expressions
 
 func (tr *translator) eval(e ast.Expr, st *sstate) val {
@@ -1150,6 +1459,20 @@ func (tr *translator) eval(e ast.Expr, st *sstate) val {
 				return val{tu.xs[i], t}
 			}
 			return val{eProj{v.e, strconv.Itoa(i + 1)}, t}
+		}
+	case *ast.IndexExpr:
+		// xs[i] (in range: Go panics otherwise; `getD` is total and the default is the zero value)
+		xs, i := tr.eval(x.X, st), tr.eval(x.Index, st)
+		if xs.t.k == "List" && (i.t.k == "Nat" || i.t.k == "IntLit") {
+			return val{eApp{eField{xs.e, "getD"}, []expr{i.e, tr.zero(xs.t.a, x)}}, xs.t.a}
+		}
+	case *ast.SliceExpr:
+		// xs[a:] ↦ xs.drop a
+		if x.Low != nil && x.High == nil && !x.Slice3 {
+			xs, a := tr.eval(x.X, st), tr.eval(x.Low, st)
+			if xs.t.k == "List" && (a.t.k == "Nat" || a.t.k == "IntLit") {
+				return val{eApp{eField{xs.e, "drop"}, []expr{a.e}}, xs.t}
+			}
 		}
 	case *ast.UnaryExpr:
 		if x.Op == token.NOT {
@@ -1237,6 +1560,10 @@ func (tr *translator) ident(name string, st *sstate) val {
 		if p.fn != nil {
 			skip("callback parameter %s used as a value", name)
 		}
+		if tr.oc.ctxDefault[name] {
+			n := leanName(p.name)
+			return val{atom("(if " + n + ".isNil then Ctx.bg else " + n + ")"), p.t}
+		}
 		return val{atom(leanName(p.name)), p.t}
 	}
 	if n, ok := sentinelNo[name]; ok {
@@ -1283,6 +1610,14 @@ func (tr *translator) binary(x *ast.BinaryExpr, st *sstate) val {
 	if op, ok := ops[x.Op]; ok && isNum(l.t) && isNum(r.t) && sameType(l.t, r.t) {
 		return val{eBin{op, l.e, r.e}, tProp}
 	}
+	if x.Op == token.REM && isNum(l.t) && isNum(r.t) && l.t.k != "Int" && r.t.k != "Int" {
+		// `%` on natural numbers (for a zero divisor Go panics; Lean's `x % 0 = x`)
+		return val{eBin{"%", l.e, r.e}, tNat}
+	}
+	if (x.Op == token.ADD || x.Op == token.QUO) && isFloat(l.t) && isFloat(r.t) {
+		name := map[token.Token]string{token.ADD: "float64_add", token.QUO: "float64_div"}[x.Op]
+		return val{eApp{tr.extern(name, []*ltype{l.t, l.t}, l.t), []expr{l.e, r.e}}, l.t}
+	}
 	if x.Op == token.ADD && isNum(l.t) && isNum(r.t) && sameType(l.t, r.t) {
 		t := l.t
 		if t.k == "IntLit" {
@@ -1307,11 +1642,57 @@ func (tr *translator) call(c *ast.CallExpr, st *sstate) val {
 		if id, ok := f.X.(*ast.Ident); ok {
 			name = id.Name
 		}
+	case *ast.IndexListExpr:
+		if id, ok := f.X.(*ast.Ident); ok {
+			name = id.Name
+		}
 	}
 	if _, shadowed := st.lookup(name); shadowed {
 		skip("call of a callback-local function value: %s", src(c))
 	}
+	if isAtomicCall(c) == "Load" && len(c.Args) == 1 {
+		if u, ok := c.Args[0].(*ast.UnaryExpr); ok {
+			v := tr.eval(u.X, st)
+			if v.t.k == "Nat" {
+				return v
+			}
+		}
+	}
 	switch name {
+	case "math.Round", "math.Abs", "math.Floor", "math.Ceil", "math.Trunc":
+		if len(c.Args) == 1 {
+			v := tr.eval(c.Args[0], st)
+			if isFloat(v.t) {
+				return val{eApp{tr.extern("math_"+name[5:], []*ltype{v.t}, v.t), []expr{v.e}}, v.t}
+			}
+		}
+	case "math.NaN":
+		if len(c.Args) == 0 {
+			return val{tr.extern("math_NaN", nil, tVar("φ")), tVar("φ")}
+		}
+	case "float64":
+		if len(c.Args) == 1 {
+			v := tr.eval(c.Args[0], st)
+			switch {
+			case isFloat(v.t):
+				return v
+			case v.t.k == "Int" || v.t.k == "IntLit":
+				return val{eApp{tr.extern("float64_ofInt", []*ltype{tInt}, tVar("φ")), []expr{v.e}}, tVar("φ")}
+			case v.t.k == "Nat":
+				return val{eApp{tr.extern("float64_ofNat", []*ltype{tNat}, tVar("φ")), []expr{v.e}}, tVar("φ")}
+			}
+		}
+	case "context.WithValue":
+		if len(c.Args) == 3 {
+			cv, k, v := tr.eval(c.Args[0], st), tr.eval(c.Args[1], st), tr.eval(c.Args[2], st)
+			if cv.t.k == "Ctx" && k.t.k == "var" && v.t.k == "var" {
+				return val{eApp{tr.extern("context_WithValue", []*ltype{tCtx, k.t, v.t}, tCtx), []expr{cv.e, k.e, v.e}}, tCtx}
+			}
+		}
+	case "newCastError":
+		if len(c.Args) == 0 {
+			return val{tr.extern("newCastError", nil, tErr), tErr}
+		}
 	case "int64", "int":
 		if len(c.Args) == 1 {
 			if l, ok := c.Args[0].(*ast.BasicLit); ok && l.Kind == token.INT {
